@@ -34,6 +34,22 @@ fn probes(s: &S, cur: &V, rng: &mut Rng) -> Vec<V> {
             for n in lens(*max) {
                 out.push(V::text(&rng.ascii(n)));
                 out.push(V::text(&rng.text_bytes(n)));
+                out.push(schema::gen_text(rng, n));
+            }
+            // every harvested literal (and realistic token) as the value, as a prefix and as a suffix
+            let lits = &schema::literals().texts;
+            for _ in 0..6 {
+                if lits.is_empty() {
+                    break;
+                }
+                let w = rng.pick(lits).clone();
+                let room = if *max == UNB { 200 } else { *max };
+                if w.len() <= room {
+                    let fill = rng.usize(room - w.len() + 1);
+                    out.push(V::text(&w));
+                    out.push(V::text(&format!("{}{}", w, rng.ascii(fill))));
+                    out.push(V::text(&format!("{}{}", rng.ascii(fill), w)));
+                }
             }
         }
         S::TextDiscard => {
